@@ -209,6 +209,9 @@ func allPrefixed(states []string, prefix string) bool {
 
 // c20GiveUp is set when a run hit the wall-clock watchdog or too many runs ended in a wait-for cycle:
 // the remaining cases of the shard are skipped (the verdict is already violated or inconclusive).
+// c20DamageInTag is set by the corruption workload when the damaged byte lies between a '<' and its '>'.
+var c20DamageInTag bool
+
 var c20GiveUp bool
 var c20Cycles int
 
@@ -413,9 +416,12 @@ func c20Judge(w *mon.W, id, what string, data []byte, res c20Result, consumer st
 		w.Violation(id, fmt.Sprintf("uniprot.Parse returned but left a channel open (entries closed %v, errors closed %v) (%s)", res.entriesClosed, res.errorsClosed, desc), rep)
 		return
 	}
-	if xerr == nil && damagePos >= 0 && res.nErrors >= 1 {
+	if xerr == nil && damagePos >= 0 && (res.nErrors >= 1 || c20DamageInTag) {
 		// the damaged text is still well-formed XML but no longer a valid Uniprot stream (e.g. a damaged
-		// attribute value) and the parser said so: the entries that end before the damage must be delivered
+		// attribute value) and the parser said so - or the damage lies inside a tag, where it can change what the
+		// element is without making the text ill-formed (a '>' inside xmlns="..." moves the entry and its
+		// children to another namespace; the harness's own reader ignores namespaces): only the entries
+		// that end before the damage are compared
 		n := 0
 		for _, e := range ends {
 			if e <= int64(damagePos) {
@@ -650,10 +656,16 @@ func runC20(w *mon.W) {
 			what = fmt.Sprintf("byte %q at %d replaced by %q", b[pos], pos, nb)
 			b[pos] = nb
 		}
+		lt, gt := strings.LastIndex(doc[:pos], "<"), strings.LastIndex(doc[:pos], ">")
+		c20DamageInTag = lt > gt || doc[pos] == '<' || doc[pos] == '>'
+		if c20DamageInTag {
+			w.Add("corruptions_inside_a_tag", 1)
+		}
 		w.Begin(id, string(b))
 		for mode := 0; mode < 2; mode++ {
 			one(id, what, r, b, mode, pos)
 		}
+		c20DamageInTag = false
 		w.Add("corruptions", 1)
 		w.SetAdd("corruption_kinds", []string{"delete angle bracket", "insert angle bracket", "rename close tag", "flip byte", "flip byte"}[kind])
 		w.End()
